@@ -19,6 +19,12 @@ CLAIMED = {
  "C17": ("M+R: TLC model check of comp/Start.tla with the progress predicate ActiveMin; replay of TLC-generated interleavings on the real Start, judged by TLC",
          "the predicate 'at every data output the last emitted watermark has caught up with the minimum over active replicas' is an invariant of the model (cause=watermark) and is evaluated by TLC on real histories of thousands of enforced arrival orders; cause=replica_ended is the open finding F6",
          "lock-step gates enforce the arrival order with single-element batches", "4-C17"),
+ "C03": ("T: trace validation of every End emission (probe + enq hooks) against spec/trace/Routing.tla with the connection kind promised by the API call",
+         "for templates whose block boundaries are created by one API call each (shuffle, group_by, replication, broadcast, hash/broadcast joins, route, zip) TLC checks for every element leaving a block the fan-out per downstream block, same-index forwarding, key->replica functionality across producers and join sides, first-match routing and control broadcast, over local parallelism 1..4 and remote layouts",
+         "replica sets are taken from worker-start events; delivery of what was enqueued is C02's link check", "4-C03"),
+ "C19": ("M+R: TLC model check of comp/ExecGraph.tla over all small clusters; StreamContext::verif_execution_graph dumps of every host judged by TLC (GraphProps.tla)",
+         "the scheduler rules as coded are model checked for every cluster up to MaxHosts x MaxCores and every replication requirement; for hundreds of (program, cluster) pairs the graph and address map derived by EVERY host of the real scheduler are checked by TLC against the property's rules and against each other",
+         "the dump hook runs build_execution_graph + topology.build exactly as start_blocking does, without starting workers", "4-C19"),
 }
 
 def main():
